@@ -251,6 +251,8 @@ initforrule	:
 			trailcnt = headcnt = rulelen = 0;
 			current_state_type = STATE_NORMAL;
 			previous_continued_action = continued_action;
+			continued_action = false;
+			rule_finished = false;
 			in_rule = true;
 
 			new_rule();
